@@ -25,7 +25,8 @@ class CaseRun:
             self.error = repr(ex)
             return
         except (TypeError, AttributeError, ValueError, IndexError,
-                KeyError, AssertionError, OverflowError) as ex:
+                KeyError, AssertionError, OverflowError,
+                __import__("struct").error) as ex:
             self.status = "generator_crash"
             self.error = repr(ex)
             return
@@ -42,6 +43,7 @@ class CaseRun:
         m[:] = bytes(len(m))
         for place, pat in inputs.items():
             size = spec.info(place)[0]
+            pat = dsl.to_raw(spec.fmt(place), size, pat)
             if place[0] == "v":
                 b.poke(place[2:], size, pat)
             else:
@@ -54,15 +56,18 @@ class CaseRun:
         spec = b.spec
         obs = dict(stmt={}, markers={}, final={})
         for path, place, name in b.stmt_outs:
-            obs["stmt"][path] = b.raw(name, spec.info(place)[0])
+            size = spec.info(place)[0]
+            obs["stmt"][path] = dsl.to_raw(spec.fmt(place), size,
+                                           b.raw(name, size))
         for path, tag, name in b.markers:
             obs["markers"].setdefault(path, {})[tag] = b.raw(name, 1)
         for place in spec.places():
             size = spec.info(place)[0]
             if place[0] == "v":
-                obs["final"][place] = b.raw(place[2:], size)
+                raw = b.raw(place[2:], size)
             else:
-                obs["final"][place] = b.raw(b.final_outs[place], size)
+                raw = b.raw(b.final_outs[place], size)
+            obs["final"][place] = dsl.to_raw(spec.fmt(place), size, raw)
         return obs
 
     def run(self, inputs, use_v=True, packet=PKT):
